@@ -257,6 +257,10 @@ theorem popFirst_admissible {cmp : Nat → Nat → Int} (tp : TotalPreorder cmp)
 theorem harness_comparators_total_preorder (key : Nat → Nat) : TotalPreorder (keyCmp key) :=
   keyCmp_totalPreorder key
 
+/-- … and so does `cmp=diff`, the 64-bit difference clamped to `int` (values 2^31, 2^32, 2^63 apart
+are ordered correctly; a comparator that truncates the difference would not satisfy the contract) -/
+theorem diff_comparator_total_preorder : TotalPreorder diffCmp := diffCmp_totalPreorder
+
 /-! ## Non-vacuity: a heap with ties between distinguishable elements (priority = `v % 10`) -/
 example :
     let cmp := keyCmp (· % 10)
